@@ -13,6 +13,7 @@ import RavenModel.Model.Headers
 import RavenModel.Model.Split
 import RavenModel.Model.Blob
 import RavenModel.Model.SearchImpl
+import RavenModel.Model.Slices
 /-! Line protocol: one op per line (`op arg …`, byte-string args hex encoded, `-` = empty, `.` = empty list),
 one canonical line out. Stateful ops (`m.*`) act on the driver's mailbox-machine state. -/
 open Raven
@@ -308,6 +309,26 @@ def opsSearch (st : DState) : List String → Option (DState × String)
   | ["q.tokens", crit] => some (st, hexList (Search.tokenise (unhex crit)))
   | _ => none
 
+/-- C12 slicing cores: `x.partial payload start len`, `x.addr value`, `x.cut msg` -/
+def opsSlices : List String → Option String
+  | ["x.partial", p, s, l] =>
+    match s.toInt?, l.toInt? with
+    | some si, some li =>
+      some (match Slices.partialCut (unhex p) si li with
+        | none => "panic"
+        | some (o, b) => (match o with | some n => toString n | none => "-") ++ " " ++ hexOut b)
+    | _, _ => none
+  | ["x.addr", v] =>
+    some (match Slices.addressList (unhex v) with
+      | none => "panic"
+      | some [] => "."
+      | some l => ";".intercalate (l.map fun (n, m, h) => hexOut n ++ "|" ++ hexOut m ++ "|" ++ hexOut h))
+  | ["x.cut", m] =>
+    some (match Slices.headerCut (unhex m), Slices.bodyCut (unhex m) with
+      | some h, some b => hexOut h ++ " " ++ hexOut b
+      | _, _ => "panic")
+  | _ => none
+
 def step (st0 : DState) (line : String) : DState × String :=
   let args := (line.trimAscii.toString.splitOn " ").filter (· ≠ "")
   match opsSearch st0 args with
@@ -326,7 +347,7 @@ where
   match opsMail st args with
   | some r => r
   | none =>
-    match (opsC18 args <|> opsC09 args <|> opsC10 args <|> opsC16 args <|> opsC17 args <|> opsC04 args <|> opsC13 args <|> opsMime args <|> opsBlob args) with
+    match (opsC18 args <|> opsC09 args <|> opsC10 args <|> opsC16 args <|> opsC17 args <|> opsC04 args <|> opsC13 args <|> opsMime args <|> opsBlob args <|> opsSlices args) with
     | some r => (st, r)
     | none => (st, "bad-op")
 
